@@ -42,6 +42,17 @@ def run_property(pid, tier, seed, source=None, quiet=False, with_controls=True):
             _ae.WARNINGS_AS_ERRORS = False
             res.mode = None
         res.note("the tree calls warnings.warn(): the mutator obligations were evaluated a second time with warnings turned into errors (python -W error)")
+    if hasattr(mod, "run_optimized") and uses_assert_or_debug(ctx.src):
+        # extra pass under `python -O`: assert statements do nothing, __debug__ is False.  Only for trees that have either.
+        from . import ae as _ae
+        _ae.OPTIMIZE = True
+        res.mode = "python-O"
+        try:
+            mod.run_optimized(ctx)
+        finally:
+            _ae.OPTIMIZE = False
+            res.mode = None
+        res.note("the tree contains assert statements or names __debug__: the obligations were evaluated once more as under `python -O`")
     if with_controls and tier == "thorough" and source is None and os.environ.get("VERIF_SELFTEST") == "1":
         # both-ways self-test of this property's checker against the current tree (in memory); reported, not gating.  Since the
         # history engines it costs minutes per property, so it is opt-in (VERIF_SELFTEST=1) or run for everything at once with
@@ -70,6 +81,19 @@ def calls_warnings_warn(src):
                 f = n.func
                 if (isinstance(f, ast.Attribute) and f.attr == "warn" and isinstance(f.value, ast.Name) and f.value.id in ("warnings", "_warnings")) or (isinstance(f, ast.Name) and f.id in ("warn", "_warn")):
                     return True
+    return False
+
+
+def uses_assert_or_debug(src):
+    import ast
+    for rel in src.relpaths():
+        try:
+            tree = src.tree(rel)
+        except SourceError:
+            continue
+        for n in ast.walk(tree):
+            if isinstance(n, ast.Assert) or (isinstance(n, ast.Name) and n.id == "__debug__"):
+                return True
     return False
 
 
